@@ -12,6 +12,12 @@ pub fn parse_records_parallel(
     schema: Option<&Schema>,
     string_block: Arc<StringBlock>,
 ) -> Result<RecordSet> {
+    // The header is untrusted: nothing is allocated from its counts before it fits the data
+    header.check_fits(data.len() as u64)?;
+    if schema.is_none() {
+        header.check_raw_fields_fit(data.len() as u64)?;
+    }
+
     // Create a vector to hold the records
     let records: Arc<Mutex<Vec<Option<Record>>>> =
         Arc::new(Mutex::new(vec![None; header.record_count as usize]));
